@@ -1,0 +1,42 @@
+//go:build verif
+
+// White-box access for the /verif C10 check (a storage error stops the host).
+// Compiled only with -tags verif. Add-only: nothing here is referenced by the
+// regular build.
+
+package dragonboat
+
+import (
+	"github.com/lni/dragonboat/v4/internal/transport"
+	pb "github.com/lni/dragonboat/v4/raftpb"
+)
+
+// verifC10Transport sits between NodeHost.sendMessage and the real transport
+// hub: it sees every message at the instant node.sendRaftMessage hands it over
+// (synchronously, on the goroutine that sends it).
+type verifC10Transport struct {
+	transport.ITransport
+	f func(m pb.Message, snapshot bool)
+}
+
+func (t *verifC10Transport) Send(m pb.Message) bool {
+	t.f(m, false)
+	return t.ITransport.Send(m)
+}
+
+func (t *verifC10Transport) SendSnapshot(m pb.Message) bool {
+	t.f(m, true)
+	return t.ITransport.SendSnapshot(m)
+}
+
+// VerifC10WrapTransport installs the observer f in front of nh.transport. It
+// must be called right after NewNodeHost, before any replica is started.
+func VerifC10WrapTransport(nh *NodeHost, f func(m pb.Message, snapshot bool)) {
+	nh.transport = &verifC10Transport{ITransport: nh.transport, f: f}
+}
+
+// VerifC10IsFreeOrder is node.go's isFreeOrderMessage: the messages that may
+// leave the host before the update they belong to has been persisted.
+func VerifC10IsFreeOrder(t pb.MessageType) bool {
+	return isFreeOrderMessage(pb.Message{Type: t})
+}
